@@ -3,7 +3,7 @@
    message characters are class tokens owned by the harness (TLC integers are 32-bit, its JSON ASCII). *)
 EXTENDS Attrs, Json
 
-CONSTANT Mode    \* "shapes" | "numbers" | "messages"
+CONSTANT Mode    \* "shapes" | "numbers" | "messages" | "companions"
 VARIABLE c
 
 None == [p |-> FALSE, min |-> "none", max |-> "none", hasMsg |-> FALSE, msg |-> <<>>]
@@ -49,7 +49,29 @@ Messages ==
               range |-> None, email |-> NoFlag, url |-> NoFlag]]
       : m \in Msgs(3) \ {<<>>} }
 
+\* validators without a Zod counterpart in the SAME attribute list (name-value and parenthesised spellings, names and
+\* values that contain the words email / url / min / max): they add nothing and must not disturb the others -
+\* also when they are the only content ("email/url iff declared")
+Companions == {"custom_nv_email", "custom_paren_url", "must_match_nv_url", "regex_nv_minmax", "nested", "required", "contains_nv_email"}
+MsgP == <<"lp", "a", "rp", "sp", "w_url">>
+CompBases ==
+    { [length |-> None, range |-> None, email |-> NoFlag, url |-> NoFlag],
+      [length |-> B("n5", "nbig", FALSE), range |-> None, email |-> NoFlag, url |-> NoFlag],
+      [length |-> [p |-> TRUE, min |-> "n5", max |-> "none", hasMsg |-> TRUE, msg |-> MsgP], range |-> None, email |-> NoFlag, url |-> NoFlag],
+      [length |-> None, range |-> None, email |-> F(TRUE), url |-> NoFlag],
+      [length |-> None, range |-> None, email |-> NoFlag, url |-> F(FALSE)] }
+CompNumBases ==
+    { [length |-> None, range |-> None, email |-> NoFlag, url |-> NoFlag],
+      [length |-> None, range |-> B("nneg5", "n1e3", FALSE), email |-> NoFlag, url |-> NoFlag],
+      [length |-> None, range |-> [p |-> TRUE, min |-> "nhalf", max |-> "none", hasMsg |-> TRUE, msg |-> MsgP], email |-> NoFlag, url |-> NoFlag] }
+CompanionCases ==
+    { [kind |-> "v", tc |-> "string", split |-> "one_attr", v |-> b, comp |-> cp, compFirst |-> cf]
+        : b \in CompBases, cp \in Companions, cf \in BOOLEAN }
+    \cup { [kind |-> "v", tc |-> "number", split |-> "one_attr", v |-> b, comp |-> cp, compFirst |-> cf]
+        : b \in CompNumBases, cp \in Companions, cf \in BOOLEAN }
+
 Space == CASE Mode = "shapes" -> {s \in Shapes : ShapeOk(s)}
+           [] Mode = "companions" -> CompanionCases
            [] Mode = "numbers" -> Numbers
            [] Mode = "messages" -> Messages
 Init == c \in Space
